@@ -61,6 +61,66 @@ def int_needs_specifics(t):
     return t["lo"] is not None and t["lo"] >= 0 and (t["hi"] is None or t["hi"] > 2**31 - 1)
 
 
+# ---------------------------------------------------------------------------
+# permitted alphabets at the case-split boundaries of the UPER string codec (OCTET_STRING_per_put/get_characters):
+# N characters need b = ceil(log2 N) bits; the code of a character is the character itself when the highest one is
+# <= 2^b - 1 (X.691 30.5.4), its index otherwise.  Boundaries: N = 2^k - 1, 2^k, 2^k + 1 and highest = 2^b - 1, 2^b, 2^b + 1.
+
+# Generated modules use the quoted notation only: asn1c cannot parse ANY number after a Tuple/Quadruple ({0,1}, {0,0,1,0}) in the same
+# module (asn1p_l.l:_lex_atoi leaves errno = ERANGE behind, the next number token is then refused; a parser defect, property C10/C12),
+# so such alphabets live in the hand-made module WB1 only, after every type that needs a number.
+SWEEP = {"IA5String": (0x20, 0x7e, 6), "VisibleString": (0x20, 0x7e, 6), "BMPString": (0x20, 0x7e, 6), "UniversalString": (0x20, 0x7e, 6)}
+ALPHA_MORE = {"NumericString": ['(FROM("0".."8"))', '(FROM(" "))', '(FROM("0".."7"))'], "PrintableString": ['(FROM("0".."9"))', '(FROM("a"))', '(FROM("A".."Z" | "a".."z"))'],
+              "IA5String": ['(FROM(" ".."@"))'], "VisibleString": ['(FROM(" ".."@"))', '(FROM("~"))']}
+
+
+def chr_lit(stype, c, quoted_ok=True):
+    """ASN.1 notation of the one-character value c of the string type"""
+    if quoted_ok and 0x20 <= c <= 0x7e and c != 0x22:
+        return '"%s"' % chr(c)
+    if stype == "IA5String":
+        return "{%d,%d}" % (c // 16, c % 16)
+    assert stype in ("BMPString", "UniversalString"), (stype, c)
+    return "{%d,%d,%d,%d}" % (c >> 24, (c >> 16) & 255, (c >> 8) & 255, c & 255)
+
+
+def alpha_text(stype, ranges):
+    """(FROM(a..b | c..d)) for a list of inclusive code ranges"""
+    q = all(0x20 <= x <= 0x7e and x != 0x22 for ab in ranges for x in ab)
+    parts = []
+    for a, b in ranges:
+        parts.append(chr_lit(stype, a, q) if a == b else "%s..%s" % (chr_lit(stype, a, q), chr_lit(stype, b, q)))
+    return "(FROM(%s))" % " | ".join(parts)
+
+
+def bits_for(n):
+    b = 0
+    while (1 << b) < n:
+        b += 1
+    return b
+
+
+def rand_alpha(r, stype):
+    lo_c, hi_c, maxb = SWEEP[stype]
+    for _ in range(50):
+        b = r.range(0, maxb)
+        n = max(1, (1 << b) + r.choice([-1, 0, 1]))
+        bb = bits_for(n)
+        hi = r.choice([(1 << bb) - 1, 1 << bb, (1 << bb) + 1, r.range(lo_c, hi_c)])
+        lo = hi - n + 1
+        if lo < lo_c or hi > hi_c:
+            continue
+        if 0x22 in (lo, hi):
+            continue
+        if n >= 4 and r.chance(1, 4):         # a hole: asn1c emits a character map
+            m = r.range(lo + 1, hi - 1)
+            if 0x22 in (m - 1, m + 1):
+                continue
+            return alpha_text(stype, [(lo, m - 1), (m + 1, hi)])
+        return alpha_text(stype, [(lo, hi)])
+    return ""
+
+
 class WideGen:
     """same algebra and the same constant tables as widegen.WGen, but every type
     comes back as (AST, kind) and the text is rendered from the AST"""
@@ -110,7 +170,11 @@ class WideGen:
                 c = r.choice(SIZE_CONS[:8])
                 lo, hi, ext = parse_size_cons(c)
                 return {"k": "STRING", "stype": s, "cons": c, "smin": lo, "smax": hi, "sext": ext, "alpha": ""}, "str"
-            a = r.choice(ALPHA[s])
+            a = rand_alpha(r, s) if (s in SWEEP and r.chance(1, 2)) else r.choice(ALPHA[s] + ALPHA_MORE.get(s, []))
+            if a and r.chance(1, 4):           # SIZE and FROM together (two constraints in series)
+                c = r.choice(SIZE_CONS[2:8])
+                lo, hi, ext = parse_size_cons(c)
+                return {"k": "STRING", "stype": s, "cons": c + " " + a, "smin": lo, "smax": hi, "sext": ext, "alpha": a}, "str"
             return {"k": "STRING", "stype": s, "cons": a, "smin": 0, "smax": None, "sext": False, "alpha": a}, "str"
         if k == "OID":
             return {"k": r.choice(["OID", "ROID"])}, "oid"
@@ -260,6 +324,137 @@ def boundary_module(name="WB0"):
     }
     return {"name": name, "default": "AUTOMATIC", "defs": [(n, None) for n in names], "trees": {}, "asts": asts, "text": text,
             "wide": True, "fixed_values": fixed}
+
+
+STR_TAG = {"IA5String": 22, "VisibleString": 26, "UTF8String": 12, "BMPString": 30, "UniversalString": 28, "GeneralString": 27, "GraphicString": 25,
+           "TeletexString": 20, "VideotexString": 21, "ObjectDescriptor": 7, "PrintableString": 19, "NumericString": 18}
+
+
+def der_tlv(tag, body):
+    n = len(body)
+    if n < 128:
+        ln = bytes([n])
+    else:
+        b = n.to_bytes((n.bit_length() + 7) // 8, "big")
+        ln = bytes([0x80 | len(b)]) + b
+    return (bytes([tag]) + ln + body).hex()
+
+
+def str_body(stype, cps):
+    if stype == "BMPString":
+        return b"".join(c.to_bytes(2, "big") for c in cps)
+    if stype == "UniversalString":
+        return b"".join(c.to_bytes(4, "big") for c in cps)
+    if stype == "UTF8String":
+        return "".join(chr(c) for c in cps).encode("utf-8")
+    return bytes(cps)
+
+
+def str_der(stype, cps):
+    return der_tlv(STR_TAG[stype], str_body(stype, cps))
+
+
+def _str_ast(stype, cons="", alpha=""):
+    return {"k": "STRING", "stype": stype, "cons": cons, "smin": 0, "smax": None, "sext": False, "alpha": alpha}
+
+
+def _finish_module(name, asts, fixed):
+    names = sorted(asts, key=lambda n: int(n[1:]))
+    text = "%s DEFINITIONS AUTOMATIC TAGS ::= BEGIN\n" % name + "".join("  %s ::= %s\n" % (n, render(asts[n])) for n in names) + "END\n"
+    return {"name": name, "default": "AUTOMATIC", "defs": [(n, None) for n in names], "trees": {}, "asts": asts, "text": text,
+            "wide": True, "fixed_values": fixed}
+
+
+def boundary_module_alpha(name="WB1"):
+    """permitted alphabets at the boundaries of the UPER character codec: for b bits per character the alphabets
+    (N, highest) = (2^b, 2^b) (2^b, 2^b - 1) (2^b - 1, 2^b) (2^b + 1, 2^b + 1); one-character alphabets; alphabets with a hole
+    (character map); each with the values [lowest] [highest] [lowest, middle, highest, highest, lowest] and the empty string"""
+    asts, fixed = {}, {}
+
+    def add(stype, ranges, cons_prefix=""):
+        tn = "W%d" % (len(asts) + 1)
+        a = alpha_text(stype, ranges)
+        asts[tn] = _str_ast(stype, (cons_prefix + " " + a).strip(), a)
+        chars = [c for lo, hi in ranges for c in range(lo, hi + 1)]
+        lo, hi, mid = chars[0], chars[-1], chars[len(chars) // 2]
+        vals = [[lo], [hi], [lo, mid, hi, hi, lo]] + ([] if cons_prefix else [[]])
+        fixed[tn] = [str_der(stype, v) for v in vals]
+    # (types that need a number outside a Tuple/Quadruple first: see SWEEP)
+    add("IA5String", [(0x78, 0x78)], "(SIZE(1..5))")
+    add("IA5String", [(0x20, 0x40)], "(SIZE(1..5))")
+    for stype, bs in (("IA5String", (1, 2, 3, 4, 5, 6)), ("BMPString", (1, 7, 8)), ("UniversalString", (8, 16))):
+        for b in bs:
+            p = 1 << b
+            for n, hi in ((p, p), (p, p - 1), (p - 1, p), (p + 1, p + 1)):
+                if n < 1 or hi - n + 1 < 0 or (stype == "IA5String" and hi > 127):
+                    continue
+                add(stype, [(hi - n + 1, hi)])
+    for lo, hi in ((0x20, 0x40), (0x20, 0x3f), (0x21, 0x40), (0x23, 0x41)):
+        add("VisibleString", [(lo, hi)])
+    add("BMPString", [(0x20, 0x40)])
+    add("IA5String", [(0x61, 0x61)])                 # one character: 0 bits per character
+    add("BMPString", [(0x61, 0x61)])
+    add("NumericString", [(0x20, 0x20)])
+    add("IA5String", [(1, 7), (9, 16)])               # 15 characters with a hole, highest = 2^4
+    add("IA5String", [(0x30, 0x39), (0x40, 0x40)])    # 11 characters with a hole, highest = 2^6 > 2^4: mapped
+    add("BMPString", [(1, 100), (102, 128)])          # 127 characters with a hole, highest = 2^7
+    add("PrintableString", [(0x30, 0x39), (0x41, 0x5a)])
+    return _finish_module(name, asts, fixed)
+
+
+XER_SPECIALS = ["<", ">", "&", "a<b>c&d", "&amp;", "&lt;", "&gt;", "&#65;", "&#x41;", "&#1A;", "<nul/>", "<!--x-->", "]]>", "<![CDATA[x]]>", "&#;", "&#0;", "&#x110000;",
+                "\x00", "\x01", "\t\n\r", "\x0b\x1b\x1f", "\x7f", " lead trail ", "", "\"'", "\u00a0\u20ac", "\U0001f600", "'()+,-./:=?", "0 1"]
+STR_LEGAL = {"IA5String": lambda c: c < 128, "VisibleString": lambda c: 0x20 <= c <= 0x7e, "UTF8String": lambda c: True, "BMPString": lambda c: c < 0x10000,
+             "UniversalString": lambda c: True, "GeneralString": lambda c: c < 256, "GraphicString": lambda c: 0x20 <= c <= 0x7e, "TeletexString": lambda c: c < 256,
+             "VideotexString": lambda c: c < 256, "ObjectDescriptor": lambda c: 0x20 <= c <= 0x7e,
+             "PrintableString": lambda c: chr(c) in "ABCDEFGHIJKLMNOPQRSTUVWXYZabcdefghijklmnopqrstuvwxyz0123456789 '()+,-./:=?", "NumericString": lambda c: chr(c) in "0123456789 "}
+
+
+def boundary_module_xer(name="WB2"):
+    """every character string type asn1c knows with the values whose XML text needs escaping (or looks like markup the XER
+    decoder expands), alone and inside constructed types; SEQUENCEs with MANDATORY extension additions next to OPTIONAL /
+    DEFAULT ones (OER presence bitmap vs the compiler's count of additions); an INTEGER with named numbers"""
+    def comp(name, t, optional=False, default=None):
+        return {"name": name, "tag": None, "type": t, "optional": optional, "default": default, "self": False}
+    asts, fixed = {}, {}
+    vals = {}
+    for stype in ("IA5String", "VisibleString", "UTF8String", "BMPString", "UniversalString", "GeneralString", "GraphicString", "TeletexString",
+                  "VideotexString", "ObjectDescriptor", "PrintableString", "NumericString"):
+        tn = "W%d" % (len(asts) + 1)
+        asts[tn] = _str_ast(stype)
+        vals[stype] = [[ord(c) for c in v] for v in XER_SPECIALS if all(STR_LEGAL[stype](ord(c)) for c in v)]
+        fixed[tn] = [str_der(stype, v) for v in vals[stype]]
+    integer = {"k": "INTEGER", "cons": "", "lo": None, "hi": None, "ext": False, "multi": False}
+    # strings inside constructed types: W13 SEQUENCE, W14 SEQUENCE OF, W15 CHOICE with an extension alternative
+    asts["W13"] = {"k": "SEQUENCE", "extpos": None, "comps": [comp("b", _str_ast("BMPString")), comp("u", _str_ast("UniversalString"), True), comp("i", _str_ast("IA5String"), True)]}
+    ctx = lambda n, stype, v: bytes.fromhex(der_tlv(0x80 | n, str_body(stype, [ord(c) for c in v])))
+    fixed["W13"] = [der_tlv(0x30, ctx(0, "BMPString", a) + ctx(1, "UniversalString", b) + ctx(2, "IA5String", c))
+                    for a, b, c in (("<", "<", "<"), ("x", "&amp;", "&amp;"), ("a<b", "y", "&"), ("plain", "plain", "<nul/>"))]
+    asts["W14"] = {"k": "SEQUENCE OF", "cons": "", "smin": 0, "smax": None, "sext": False, "elem": _str_ast("BMPString")}
+    fixed["W14"] = [der_tlv(0x30, b"".join(bytes.fromhex(str_der("BMPString", [ord(c) for c in v])) for v in vs)) for vs in (("a", "<", "b"), ("&lt;",), ("ok", ">"))]
+    asts["W15"] = {"k": "CHOICE", "extpos": 1, "comps": [comp("n", {"k": "NULL"}), comp("u", _str_ast("UniversalString")), comp("t", _str_ast("UTF8String"))]}
+    fixed["W15"] = [ctx(1, "UniversalString", "<&>").hex(), ctx(2, "UTF8String", "<&>").hex(), ctx(1, "UniversalString", "fine").hex()]
+    # SEQUENCE with mandatory extension additions
+    boolean = {"k": "BOOLEAN"}
+    dfl5 = dict(integer)
+    asts["W16"] = {"k": "SEQUENCE", "extpos": 1, "comps": [comp("a", boolean), comp("m", integer)]}
+    fixed["W16"] = ["30038001ff", "30068001ff810107"]
+    asts["W17"] = {"k": "SEQUENCE", "extpos": 1, "comps": [comp("a", boolean), comp("m", integer), comp("o", integer, True)]}
+    fixed["W17"] = ["30038001ff", "30068001ff810107", "30098001ff810107820108", "30068001ff820108"]
+    asts["W18"] = {"k": "SEQUENCE", "extpos": 1, "comps": [comp("a", boolean), comp("o", integer, True), comp("m", integer)]}
+    fixed["W18"] = ["30068001ff820107", "30098001ff810107820108", "30068001ff810107"]
+    asts["W19"] = {"k": "SEQUENCE", "extpos": 1, "comps": [comp("a", boolean), comp("m1", integer), comp("m2", boolean), comp("m3", {"k": "NULL"})]}
+    fixed["W19"] = ["300b8001ff8101078201ff8300", "30038001ff", "30058001ff8300", "30068001ff8201ff"]
+    asts["W20"] = {"k": "SEQUENCE", "extpos": 1, "comps": [comp("a", boolean), comp("d", dfl5, default="5"), comp("m", integer)]}
+    fixed["W20"] = ["30068001ff820107", "30098001ff810106820107"]
+    asts["W21"] = {"k": "SEQUENCE", "extpos": 0, "comps": [comp("m", integer), comp("n", _str_ast("BMPString"))]}
+    fixed["W21"] = ["3000", "3003800107", "3009800107810400610062"]
+    # 9 additions: the presence bitmap crosses an octet boundary
+    asts["W22"] = {"k": "SEQUENCE", "extpos": 1, "comps": [comp("a", boolean)] + [comp("e%d" % i, boolean, optional=(i % 2 == 1)) for i in range(9)]}
+    fixed["W22"] = [der_tlv(0x30, bytes.fromhex("8001ff") + b"".join(bytes([0x81 + i, 1, 0xff]) for i in sel)) for sel in ((), (0,), (8,), (7, 8), tuple(range(9)), (0, 2, 4, 6, 8))]
+    asts["W23"] = {"k": "INTEGER", "cons": "{ one(1), two(2) }", "lo": None, "hi": None, "ext": False, "multi": False}
+    fixed["W23"] = ["020101", "020102", "020103", "0201ff"]
+    return _finish_module(name, asts, fixed)
 
 
 # ---------------------------------------------------------------------------
@@ -480,4 +675,7 @@ def classify(module, typename, syntax, status, stderr="", facts=()):
         return "C01-xer-real-basic-lossy"
     if syntax == "coer" and status == "CMP" and "wide_int" in facts:
         return "C01-wide-integer-compare"
+    # (no branch for the permitted-alphabet boundary, one-character alphabet, BMPString/UniversalString XER escaping and
+    #  ObjectDescriptor OER defects: repaired by notes/fixes/H; the driver still prints their value-level facts km_ub_pow2, km_bits0,
+    #  ustr_xer_lt, ustr_xer_entref, ustr_xer_charref0, no_oer_codec as diagnostics in a violation's replay)
     return None
